@@ -241,8 +241,9 @@ fn ref_text(s: &str) -> Option<Option<Vec<u8>>> {
         "SOA" => {
                  // ns contact ( serial refresh retry expire minimum )
                  let joined = rest.join(" ");
-                 let (names, nums) = match joined.split_once('(') { Some(x) => x, None => return None };
-                 let nums = match nums.trim_end().strip_suffix(')') { Some(x) => x, None => return None };
+                 // both parentheses of the number group are mandatory
+                 let (names, nums) = match joined.split_once('(') { Some(x) => x, None => return Some(None) };
+                 let nums = match nums.trim_end().strip_suffix(')') { Some(x) => x, None => return Some(None) };
                  let nm: Vec<&str> = names.split(' ').filter(|t| !t.is_empty()).collect();
                  let nv: Vec<&str> = nums.split(' ').filter(|t| !t.is_empty()).collect();
                  if nm.len() != 2 || nv.len() != 5 { return None; }
@@ -402,10 +403,14 @@ pub fn gen(prop: &str, r: &mut Rng) -> Vec<String> {
             };
             // a zero-padded TTL (11..13 digits) now and then: still the same number
             let ttl = if r.chance(1, 15) && ttl.bytes().all(|c| c.is_ascii_digit()) && ttl.len() <= 10 { format!("{:0>w$}", ttl, w = 11 + r.below(3) as usize) } else { ttl };
+            // a missing TTL field now and then (the class then stands where the TTL should)
+            let ttl = if r.chance(1, 25) { String::new() } else { ttl };
             let class = if r.chance(1, 25) { let c = *r.pick(&["CH", "HS", "ANY", "INN", "I"]); kw(r, c) } else { kw(r, "IN") };
             // the TTL field: now and then with a sign, a letter or a blank-free suffix
             let ttl = if r.chance(1, 25) { format!("{}{}{}", *r.pick(&["+", "-", "", ""]), ttl, *r.pick(&["", "x", "s", ".0"])) } else { ttl.to_string() };
-            let mut text = format!("{}{}{}{}{}{}{}", owner, ws(r), ttl, ws(r), class, ws(r), body);
+            let mut text = if ttl.is_empty() { format!("{}{}{}{}{}", owner, ws(r), class, ws(r), body) } else { format!("{}{}{}{}{}{}{}", owner, ws(r), ttl, ws(r), class, ws(r), body) };
+            // the SOA number group with one of its parentheses missing
+            if r.chance(1, 20) { if let Some(i) = text.find('(') { if r.chance(1, 2) { text.replace_range(i..i + 1, " "); } else if let Some(j) = text.rfind(')') { text.replace_range(j..j + 1, ""); } } }
             if r.chance(1, 6) { let n = r.below(text.len() as u64 + 1) as usize; if text.is_char_boundary(n) { text.truncate(n); } }
             if r.chance(1, 8) { text.push_str(" extra"); }
             if r.chance(1, 20) { text.push_str(*r.pick(&["\n", "\r\n", " \n", "\x0c"])); }
